@@ -157,6 +157,8 @@ structure NProofObs where
   start : Nat
   end_ : Nat
   isAbsence : Bool
+  /-- the inner nodes of the range proof, each as its 90 bytes (min namespace ‖ max namespace ‖ hash) -/
+  siblings : List Bytes := []
 
 structure ShareProofObs (D : Type) where
   data : List Bytes
@@ -198,17 +200,86 @@ def slicesBound {D : Type} (w : Nat) (sq : List Bytes) (ns : Bytes) :
       slicesBound w sq ns (data.drop amount) nps ps
   | _, _, _ => true
 
-/-- **Share proofs fail if any proven root, proven share or inner node is altered or the counts do
-    not match.**  `sq` is the extended square (row-major, width `w`), `all` its DAH roots (rows then
-    columns).  A share proof may be accepted only if there is one presence range proof with a
-    non-empty range per proven row root, the number of shares is the sum of the range lengths, the
-    row proof is acceptable (`specRowVerify`), and — when the root is the DAH hash and the merkle
-    proofs are for a tree of `|all|` leaves — each group of shares is exactly the claimed range of the
-    proven axis of the square, under the claimed namespace.  (Aborts inside nmt-rs are C16's subject;
-    they are not acceptances.) -/
-def specShareVerify {D : Type} [DecidableEq D] (H : HashFns D) (w : Nat) (sq all : List Bytes)
+/-! #### the inner nodes of a range proof: an independent recomputation of the axis root
+
+The axis trees of a square of width `w` (a power of two) are perfect.  `recompute` walks the perfect
+tree over positions `lo .. lo + size` from left to right: a subtree disjoint from the proven range is
+taken from the next sibling, a leaf inside the range from the next share (hashed under the claimed
+namespace), anything else is split in two halves whose nodes are combined with the NMT node rule
+(namespace range = union, except that the parity namespace on the right is ignored). -/
+
+/-- the underlying hash of the NMT -/
+abbrev NHash := Bytes → Bytes
+
+structure NNode where
+  minNs : Bytes
+  maxNs : Bytes
+  hash : Bytes
+  deriving DecidableEq
+
+def NNode.bytes (n : NNode) : Bytes := n.minNs ++ n.maxNs ++ n.hash
+
+def NNode.ofBytes? (b : Bytes) : Option NNode :=
+  if b.length = 90 then some ⟨b.take 29, (b.drop 29).take 29, b.drop 58⟩ else none
+
+def parityNs : Bytes := List.replicate 29 255
+
+/-- leaf node: H(0x00 ‖ ns ‖ share) covering [ns, ns] -/
+def nLeaf (h : NHash) (ns share : Bytes) : NNode := ⟨ns, ns, h (0 :: (ns ++ share))⟩
+
+/-- inner node: H(0x01 ‖ left ‖ right); min = smaller min; max ignores a parity right part -/
+def nInner (h : NHash) (l r : NNode) : NNode :=
+  let minNs := if l.minNs ≤ r.minNs then l.minNs else r.minNs
+  let maxNs :=
+    if l.minNs = parityNs then parityNs
+    else if r.minNs = parityNs then l.maxNs
+    else if l.maxNs ≤ r.maxNs then r.maxNs else l.maxNs
+  ⟨minNs, maxNs, h (1 :: (l.bytes ++ r.bytes))⟩
+
+/-- root of the perfect subtree over positions `lo .. lo + size`, consuming shares and siblings from
+    the left; returns the node and what is left of both -/
+def recompute (h : NHash) (ns : Bytes) (start end_ : Nat) :
+    Nat → Nat → Nat → List Bytes → List Bytes → Option (NNode × List Bytes × List Bytes)
+  | 0, _, _, _, _ => none
+  | f + 1, lo, size, shares, sibs =>
+    if lo + size ≤ start ∨ end_ ≤ lo then
+      match sibs with
+      | [] => none
+      | s :: rest => (NNode.ofBytes? s).map (fun n => (n, shares, rest))
+    else if size = 1 then
+      match shares with
+      | [] => none
+      | x :: rest => some (nLeaf h ns x, rest, sibs)
+    else
+      match recompute h ns start end_ f lo (size / 2) shares sibs with
+      | none => none
+      | some (l, shares1, sibs1) =>
+        match recompute h ns start end_ f (lo + size / 2) (size / 2) shares1 sibs1 with
+        | none => none
+        | some (r, shares2, sibs2) => some (nInner h l r, shares2, sibs2)
+
+/-- the shares of the range together with the siblings hash up to exactly `root` (all consumed) -/
+def siblingsProve (h : NHash) (w : Nat) (ns : Bytes) (start end_ : Nat) (shares sibs : List Bytes) (root : Bytes) : Bool :=
+  match recompute h ns start end_ (w + 1) 0 w shares sibs with
+  | some (n, [], []) => n.bytes == root
+  | _ => false
+
+/-- every in-width group is proven by its own inner nodes against its own row root: an altered
+    inner node cannot be accepted -/
+def siblingsBound (h : NHash) (w : Nat) (ns : Bytes) : List Bytes → List NProofObs → List Bytes → Bool
+  | data, np :: nps, r :: rs =>
+    let amount := np.end_ - np.start
+    (!decide (np.end_ ≤ w) || siblingsProve h w ns np.start np.end_ (data.take amount) np.siblings r) &&
+      siblingsBound h w ns (data.drop amount) nps rs
+  | _, _, _ => true
+
+/-- the share-proof rule WITHOUT the inner-node clause (this is the part the kernel-checked theorems
+    of `Props/C13.lean` establish for the model; see `specShareVerify` for the full rule). -/
+def specShareVerifyCore {D : Type} [DecidableEq D] (H : HashFns D) (w : Nat) (sq all : List Bytes)
     (sp : ShareProofObs D) (rt : Option D) (res : Res) : Bool :=
   match res with
+  | .panic => false
+  | .err => true
   | .ok =>
     sp.sproofs.length == sp.row.rowRoots.length &&
     sp.sproofs.all (fun p => !p.isAbsence && decide (p.start < p.end_)) &&
@@ -216,10 +287,35 @@ def specShareVerify {D : Type} [DecidableEq D] (H : HashFns D) (w : Nat) (sq all
     specRowVerify H all sp.row rt .ok &&
     (!(rt == some (treeRoot H all) && sp.row.proofs.all (fun p => p.total == all.length)) ||
       slicesBound w sq sp.ns sp.data sp.sproofs sp.row.proofs)
-  | _ => true
+
+/-- **Share proofs fail if any proven root, proven share or inner node is altered or the counts do
+    not match.**  `sq` is the extended square (row-major, width `w`), `all` its DAH roots (rows then
+    columns), `h` the NMT hash.  A share proof may be accepted only if there is one presence range
+    proof with a non-empty range per proven row root, the number of shares is the sum of the range
+    lengths, the row proof is acceptable (`specRowVerify`), and — when the root is the DAH hash and the
+    merkle proofs are for a tree of `|all|` leaves — each group of shares is exactly the claimed range
+    of the proven axis of the square, under the claimed namespace, and the group's inner nodes together
+    with its shares recompute the proven row root (so no inner node can have been altered).
+    "Fail" means returning an error: a verification that ABORTS (panic) on a decodable proof is a
+    failure of the property, not a rejection. -/
+def specShareVerify {D : Type} [DecidableEq D] (H : HashFns D) (h : NHash) (w : Nat) (sq all : List Bytes)
+    (sp : ShareProofObs D) (rt : Option D) (res : Res) : Bool :=
+  specShareVerifyCore H w sq all sp rt res &&
+  (match res with
+   | .ok =>
+     !(rt == some (treeRoot H all) && sp.row.proofs.all (fun p => p.total == all.length)) ||
+       siblingsBound h w sp.ns sp.data sp.sproofs sp.row.rowRoots
+   | _ => true)
 
 /-- **Share proofs built from a DAH verify against its hash** (honest construction: for each row
     the shares of a column range and their NMT range proof, plus the row proof) -/
-def specShareBuild (verified : Res) : Bool := verified == .ok
+def specShareBuildVerifies (verified : Res) : Bool := verified == .ok
+
+/-- the same, and the built proof itself obeys the acceptance rule (its shares are the claimed ranges
+    of the square, its inner nodes recompute the row roots): what the driver checks on the
+    implementation's honestly built proofs -/
+def specShareBuild {D : Type} [DecidableEq D] (H : HashFns D) (h : NHash) (w : Nat) (sq all : List Bytes)
+    (built : ShareProofObs D) (dahHash : D) (verified : Res) : Bool :=
+  verified == .ok && specShareVerify H h w sq all built (some dahHash) .ok
 
 end Lumina.Spec.C13
